@@ -2,6 +2,7 @@
 # runs every claimed check (tier $1, default quick) and prints one summary line per check
 cd "$(dirname "$0")/.." || exit 2
 tier=${1:-quick}
+./vcheck --setup > /dev/null 2>&1 || echo "SETUP FAILED (./vcheck --setup)"
 for id in $(python3 -c "import json;print(' '.join(c['property_id'] for c in json.load(open('MANIFEST.json'))['checks']))"); do
   out=$(./vcheck $id $tier 2>&1); rc=$?
   echo "$id rc=$rc $(echo "$out" | grep -c '^VIOLATION') violations, $(echo "$out" | grep -c '^KNOWN-FINDING') known; $(echo "$out" | tail -1 | cut -c1-150)"
